@@ -309,6 +309,17 @@ def systematic_algebra():
         out += [["or", lo, g1], ["or", g1, lo], ["or", lo, g2], ["sub", ["AnyBetween", q[0], q[5]], ["chr", s_]],
                 ["sub", ["or", lo, g1], ["AnyFrom", q[1], q[2]]], ["sub", ["AnyFrom", q[1], q[3], s_], g1],
                 ["sub", ["AnyFrom", q[0], q[1], q[2]], lo], ["or", ["AnyFrom", s_], ["or", lo, g1]]]
+    # "anagram" histories: two classes whose texts are made of the same characters grouped differently ([a-dg] then
+    # [ad-g]), built one after the other in the same module instance (a memo keyed by a lossy digest of the text mixes them up)
+    for s_ in SPECIALS:
+        lo, hi = _nb(s_, -3), _nb(s_, 3)
+        if lo is None or hi is None:
+            continue
+        first = ["or", ["AnyBetween", lo, s_], ["chr", hi]]
+        second = ["or", ["AnyBetween", s_, hi], ["chr", lo]]
+        out.append({"lets": [first], "program": second})
+        out.append({"lets": [second], "program": first})
+        out.append({"lets": [["AnyFrom", lo, s_, hi], ["sub", ["AnyBetween", lo, hi], ["chr", s_]]], "program": ["AnyBetween", lo, hi]})
     # every pairing of operand kinds under | and -, in both orders: the exception paths and the Any / global-word rules
     kinds = [["Any"], ["named", "AnyDigit"], ["AnyFrom", "a", "5"], ["named", "AnyButDigit"], ["AnyButFrom", "a", "5"],
              ["named", "AnyWordChar", True], ["named", "AnyButWordChar", True], ["chr", "5"], ["tok", "Newline"], ["lit", "5"],
